@@ -4,6 +4,8 @@ from ..gen import KEY_POOL, PREFIX, hx, rng_for
 
 ENGINES = ["memkv", "badger", "tikv"]
 
+EXTRA_PROP_MODULES = [("KB.Props.C07Race", "KB.C07Race")]
+
 
 def probe_reads(keys, revs):
     lines = []
@@ -105,14 +107,26 @@ def race_case(seed, i, engine):
     stop_at = r.randint(0, 4)          # how far the compaction gets before the writers run
     lines += ["step k91"] * stop_at
     m = 0
+    writers = []
     for k in r.sample(keys, r.randint(1, 3)):
         m += 1
         if state[k] is None:
             req = "create %s %s" % (hx(k), hx(b"again"))
         else:
             req = r.choice(["update %s %s %d" % (hx(k), hx(b"v2"), state[k]), "delete %s 0" % hx(k)])
-        lines += ["start c%d %s" % (m, req)] + ["step c%d" % m] * 4
-    lines += ["rev"] + ["step k91"] * 5 + ["rev"]
+        writers.append(m)
+        lines.append("start c%d %s" % (m, req))
+    if i % 2 == 0:
+        # request granularity: every writer runs to completion between two compactor calls
+        for m in writers:
+            lines += ["step c%d" % m] * 5
+        lines += ["rev"] + ["step k91"] * 5 + ["rev"]
+    else:
+        # storage-call granularity: the compactor's calls fall BETWEEN a writer's read and its commit, and between
+        # the two commits of a create over a deleted key
+        pool = ["step c%d" % m for m in writers for _ in range(5)] + ["step k91"] * 5
+        r.shuffle(pool)
+        lines += pool + ["rev"] + ["step c%d" % m for m in writers for _ in range(3)] + ["step k91"] * 3 + ["rev"]
     # afterwards every key keeps normal semantics: creating a live key must fail, a deleted one can be created
     for j, k in enumerate(keys):
         lines += ["rev", "get %s 0" % hx(k), "start d%d create %s %s" % (60 + j, hx(k), hx(b"dup"))] + ["step d%d" % (60 + j)] * 4
@@ -144,7 +158,7 @@ def check(rep, tier, seed):
         rep.count_case(c)
         if c.meta.get("race"):
             from .. import sched
-            hit = sched.oracle_c01(c) or hist.check_reads(c)
+            hit = sched.oracle_c01(c) or sched.oracle_cf_justified(c) or hist.check_reads(c)
         else:
             hit = oracle(c)
         if hit:
